@@ -16,41 +16,43 @@ Notation val := (PyVal.val F).
 Definition tolv : F := f_lit fo 1 (-10) 0x1.b7cdfd9d7bdbbp-34%float.
 Definition absdiff (a b : F) : F := f_abs fo (f_sub fo a b).
 
-Ltac notb c := transitivity (py_not fo (VBool c)); [reflexivity | destruct c; reflexivity].
+(* conversions under a tactic timeout: a changed operator makes the proof fail within seconds *)
+Ltac rfl := timeout 30 reflexivity.
+Ltac notb c := transitivity (py_not fo (VBool c)); [rfl | destruct c; rfl].
 
 (* ---- comparisons: Epoch against Epoch / float / int / anything else ---- *)
 Lemma lt_ee a b : Epoch___lt__ fo (epg a) (epg b) = VBool (f_ltb fo a b).
-Proof. reflexivity. Qed.
+Proof. rfl. Qed.
 Lemma gt_ee a b : Epoch___gt__ fo (epg a) (epg b) = VBool (f_ltb fo b a).
-Proof. reflexivity. Qed.
+Proof. rfl. Qed.
 Lemma ge_ee a b : Epoch___ge__ fo (epg a) (epg b) = VBool (negb (f_ltb fo a b)).
 Proof. notb (f_ltb fo a b). Qed.
 Lemma le_ee a b : Epoch___le__ fo (epg a) (epg b) = VBool (negb (f_ltb fo b a)).
 Proof. notb (f_ltb fo b a). Qed.
 Lemma eq_ee a b : Epoch___eq__ fo (epg a) (epg b) = VBool (f_ltb fo (absdiff a b) tolv).
-Proof. reflexivity. Qed.
+Proof. rfl. Qed.
 Lemma ne_ee a b : Epoch___ne__ fo (epg a) (epg b) = VBool (negb (f_ltb fo (absdiff a b) tolv)).
 Proof. notb (f_ltb fo (absdiff a b) tolv). Qed.
 
 Lemma lt_ef a b : Epoch___lt__ fo (epg a) (VFloat b) = VBool (f_ltb fo a b).
-Proof. reflexivity. Qed.
+Proof. rfl. Qed.
 Lemma gt_ef a b : Epoch___gt__ fo (epg a) (VFloat b) = VBool (f_ltb fo b a).
-Proof. reflexivity. Qed.
+Proof. rfl. Qed.
 Lemma ge_ef a b : Epoch___ge__ fo (epg a) (VFloat b) = VBool (negb (f_ltb fo a b)).
 Proof. notb (f_ltb fo a b). Qed.
 Lemma le_ef a b : Epoch___le__ fo (epg a) (VFloat b) = VBool (negb (f_ltb fo b a)).
 Proof. notb (f_ltb fo b a). Qed.
 Lemma eq_ef a b : Epoch___eq__ fo (epg a) (VFloat b) = VBool (f_ltb fo (absdiff a b) tolv).
-Proof. reflexivity. Qed.
+Proof. rfl. Qed.
 Lemma ne_ef a b : Epoch___ne__ fo (epg a) (VFloat b) = VBool (negb (f_ltb fo (absdiff a b) tolv)).
 Proof. notb (f_ltb fo (absdiff a b) tolv). Qed.
 
 Lemma lt_ei a n : Epoch___lt__ fo (epg a) (VInt n) = VBool (f_ltb fo a (f_of_Z fo n)).
-Proof. reflexivity. Qed.
+Proof. rfl. Qed.
 Lemma gt_ei a n : Epoch___gt__ fo (epg a) (VInt n) = VBool (f_ltb fo (f_of_Z fo n) a).
-Proof. reflexivity. Qed.
+Proof. rfl. Qed.
 Lemma eq_ei a n : Epoch___eq__ fo (epg a) (VInt n) = VBool (f_ltb fo (absdiff a (f_of_Z fo n)) tolv).
-Proof. reflexivity. Qed.
+Proof. rfl. Qed.
 
 (* a string / None / tuple / list operand raises TypeError in all six *)
 Definition not_comparable (v : val) : Prop :=
@@ -59,30 +61,30 @@ Lemma cmp_type_error a v : not_comparable v ->
   Epoch___lt__ fo (epg a) v = VErr TypeError /\ Epoch___gt__ fo (epg a) v = VErr TypeError /\
   Epoch___le__ fo (epg a) v = VErr TypeError /\ Epoch___ge__ fo (epg a) v = VErr TypeError /\
   Epoch___eq__ fo (epg a) v = VErr TypeError /\ Epoch___ne__ fo (epg a) v = VErr TypeError.
-Proof. destruct v; simpl; intro H; try contradiction; repeat split; reflexivity. Qed.
+Proof. destruct v; cbn [not_comparable]; intro H; try contradiction; repeat split; rfl. Qed.
 
 (* ---- arithmetic ---- *)
 (* Epoch - Epoch is the difference of the JDEs *)
 Lemma sub_ee a b : Epoch___sub__ fo (epg a) (epg b) = VFloat (f_sub fo a b).
-Proof. reflexivity. Qed.
+Proof. rfl. Qed.
 (* Epoch + number is the Epoch constructed from (JDE + number); likewise - *)
 Lemma add_ef j x : Epoch___add__ fo (epg j) (VFloat x) = mkEg fo [VFloat (f_add fo j x)].
-Proof. unfold mkEg, epg, blankg. reflexivity. Qed.
+Proof. unfold mkEg, epg, blankg. rfl. Qed.
 Lemma add_ei j n : Epoch___add__ fo (epg j) (VInt n) = mkEg fo [VFloat (f_add fo j (f_of_Z fo n))].
-Proof. unfold mkEg, epg, blankg. reflexivity. Qed.
+Proof. unfold mkEg, epg, blankg. rfl. Qed.
 Lemma sub_ef j x : Epoch___sub__ fo (epg j) (VFloat x) = mkEg fo [VFloat (f_sub fo j x)].
-Proof. unfold mkEg, epg, blankg. reflexivity. Qed.
+Proof. unfold mkEg, epg, blankg. rfl. Qed.
 Lemma sub_ei j n : Epoch___sub__ fo (epg j) (VInt n) = mkEg fo [VFloat (f_sub fo j (f_of_Z fo n))].
-Proof. unfold mkEg, epg, blankg. reflexivity. Qed.
+Proof. unfold mkEg, epg, blankg. rfl. Qed.
 (* the reflected form is the same call *)
 Lemma radd_ef j x : Epoch___radd__ fo (epg j) (VFloat x) = Epoch___add__ fo (epg j) (VFloat x).
-Proof. reflexivity. Qed.
+Proof. rfl. Qed.
 Lemma radd_ei j n : Epoch___radd__ fo (epg j) (VInt n) = Epoch___add__ fo (epg j) (VInt n).
-Proof. reflexivity. Qed.
+Proof. rfl. Qed.
 Lemma add_type_error j v : not_comparable v ->
   Epoch___add__ fo (epg j) v = VErr TypeError /\ Epoch___radd__ fo (epg j) v = VErr TypeError /\
   Epoch___sub__ fo (epg j) v = VErr TypeError.
-Proof. destruct v; simpl; intro H; try contradiction; repeat split; reflexivity. Qed.
+Proof. destruct v; cbn [not_comparable]; intro H; try contradiction; repeat split; rfl. Qed.
 
 End Generic.
 
